@@ -47,6 +47,7 @@ def tasks(tier, seed):
         T.append(('transform', N))
     T.append(('edge',))
     T.append(('kron',))
+    T.append(('bcnd',))
     return T
 
 
@@ -63,6 +64,8 @@ def run_task(rep, task):
         edge_case(rep)
     elif task[0] == 'kron':
         kron_case(rep)
+    elif task[0] == 'bcnd':
+        bcnd_case(rep)
 
 
 # ------------------------------------------------------------------------------------------------ exact polynomial bases (monomial coefficients)
@@ -384,6 +387,41 @@ def kron_case(rep):
                         spec[i, j] = sum(rv(D1[j, k]) * U[i, k] for k in range(N1)) if np.any(D1[j]) else z3.RealVal(0)
             decide(rep, name, close(got, list(spec.ravel()), rv(Fraction(1, 10**10) * 100)), u, 'kronecker-expansion',
                    lambda cv, Dn=Dn, D1=D1, axis=axis: float(np.abs(Dn @ cv - ((D1 @ cv.reshape(N0, N1)) if axis == 0 else (cv.reshape(N0, N1) @ D1.T)).ravel()).max()))
+
+
+def bcnd_case(rep):
+    """boundary bordering in 1-3 dimensions: the N-D boundary matrix is the tensor product of the 1-D boundary row (placed in the requested line) on the
+    chosen axis and identities elsewhere, for every way of naming the axis (positive or negative index).  The 1-D rows themselves are checked by the
+    cheb / ultra cases.  Solver: the N-D matrix applied to an arbitrary coefficient array equals the tensor-product form."""
+    setups = [(('chebychev', 3),), (('chebychev', 3), ('ultraspherical', 4)), (('ultraspherical', 3), ('chebychev', 3), ('chebychev', 2)), (('chebychev', 2), ('chebychev', 3), ('ultraspherical', 3))]
+    for bases in setups:
+        H = SpectralHelper(debug=False)
+        for b, N in bases:
+            H.add_axis(base=b, N=N)
+        H.add_component('u')
+        H.setup_fft()
+        nd = len(bases)
+        shape = tuple(N for _, N in bases)
+        for axis in range(nd):
+            for alias in (axis, axis - nd):
+                for line in (-1, 0):
+                    for x in (1, -1):
+                        name = f'bcnd/{"x".join(b[:4] + str(N) for b, N in bases)}/axis{alias}/line{line}/x{x}'
+                        try:
+                            Mn = np.asarray(H.get_BC(axis=alias, kind='Dirichlet', line=line, x=x).todense(), dtype=float)
+                        except Exception as e:
+                            rep.side(name, False, f'{type(e).__name__}: {e}')
+                            continue
+                        row = np.asarray(H.axes[axis].get_BC(kind='Dirichlet', x=x), dtype=float).ravel()
+                        B1 = np.zeros((shape[axis], shape[axis]))
+                        B1[line, :] = row
+                        mats = [B1 if a == axis else np.eye(shape[a]) for a in range(nd)]
+                        ref = mats[0]
+                        for m_ in mats[1:]:
+                            ref = np.kron(ref, m_)
+                        u = [z3.Real(f'u{j}') for j in range(int(np.prod(shape)))]
+                        decide(rep, name, close(matvec(Mn, u), matvec(ref, u), rv(Fraction(1, 10**11))), u, 'boundary-bordering-nd',
+                               lambda cv, Mn=Mn, ref=ref: float(np.abs(Mn @ cv - ref @ cv).max()))
 
 
 def replay(path):
